@@ -2,7 +2,7 @@
 (solver_hints.json). The hints only reorder the portfolio of pvc/solve.py; verdicts are unaffected."""
 import collections, json, os, re, sys
 os.environ["PVC_LEARN"] = "1"
-sys.path.insert(0, "/verif")
+sys.path.insert(0, os.path.dirname(os.path.dirname(os.path.abspath(__file__))))
 from pvc import run as R
 R.load_contracts()
 import properties_map as PM
